@@ -197,7 +197,7 @@ def history_shard(st, shard, nshards, payload):
                         X = subsets[(i * 5 + m + v) % len(subsets)]
                         Y = subsets[(i * 3 + m // 7 + v) % len(subsets)]
                         if v == 0:
-                            return [['reach', X], ['reverse'], ['subgraph', Y], ['clone']]
+                            return [['reach', X], ['reverse'], ['subgraph', Y], ['clone'], ['reach_next', (i + m) % max(n, 1)]]
                         if v == 1:
                             return [[['reach', X]], [['reverse']], [['subgraph', Y]], [['clone']], [['fork']]][i % 5]
                         if v == 3:
@@ -243,7 +243,7 @@ def history_random_shard(st, shard, nshards, payload):
             st.sample(inp, cls='random-history')
         return check_history(inp)
 
-    strat = ghist.st_history(['reach', 'reach', 'reverse', 'subgraph', 'clone', 'fork', 'scc_of'], max_nodes=7, max_ops=40)
+    strat = ghist.st_history(['reach', 'reach', 'reach_next', 'reverse', 'subgraph', 'clone', 'fork', 'scc_of'], max_nodes=7, max_ops=40)
     f = core.hyp_run(payload['seed'] * 1000 + 500 + shard, strat, body, payload['n'])
     if f is not None:
         st.failure = f
